@@ -77,6 +77,14 @@ def expand_long(item, as_bytes=False):
     return body.encode("latin-1") if as_bytes else body
 
 
+def open_case(case, path):
+    import os
+    from fastparquet import ParquetFile
+    if case["opts"].get("multi"):
+        return ParquetFile([os.path.join(path, "f1.parquet"), os.path.join(path, "f2.parquet")])
+    return ParquetFile(path)
+
+
 def build_frame(cols):
     import pandas as pd
     return pd.DataFrame({c["name"]: build_series(c, c["name"]) for c in cols})
@@ -95,6 +103,19 @@ def write_case(case, path):
         for key in ("stats", "has_nulls", "compression", "times", "object_encoding", "fixed_text", "file_scheme"):
             if key in o:
                 kw[key] = o[key]
+        if o.get("multi"):
+            # a dataset of two files written from the same frame with the columns in OPPOSITE order (row groups that list their chunks
+            # in different orders), opened as ParquetFile([f1, f2])
+            import os
+            k = o["multi"]
+            kw.pop("file_scheme", None)
+            os.mkdir(path)
+            rgo = o.get("rgo") or [0]
+            writer.write(os.path.join(path, "f1.parquet"), df.iloc[:k].reset_index(drop=True), write_index=False,
+                         row_group_offsets=[x for x in rgo if x < k] or [0], **kw)
+            writer.write(os.path.join(path, "f2.parquet"), df.iloc[k:][list(df.columns)[::-1]].reset_index(drop=True), write_index=False,
+                         row_group_offsets=sorted({0} | {x - k for x in rgo if x >= k}), **kw)
+            return
         if o.get("rgo") is not None:
             kw["row_group_offsets"] = o["rgo"]
         writer.write(path, df, write_index=False, **kw)
